@@ -8,7 +8,7 @@
     unguarded classes (no player ever exhausted, the sentinel is not less than any key handed in); they are
     vacuous for the guarded classes.  [ik <= 2^30]: Source = uint32_t arithmetic does not wrap. *)
 From Coq Require Import List NArith.
-From TLXV Require Import Common.Order C09.LoserTree C09.Spec C09.Winner C09.Final.
+From TLXV Require Import Common.Order C09.LoserTree C09.Spec C09.Winner C09.Final C09.UnguardedGeneral.
 Import ListNotations.
 Local Open Scope N_scope.
 
@@ -65,3 +65,47 @@ Theorem C09_model_run_passes_checker :
     check_trace ltb v seqs (lt_run ltb dkey v sentinel seqs) = true.
 Proof. exact (@run_checks). Qed.
 Print Assumptions C09_model_run_passes_checker.
+
+(** * The unguarded classes without the sentinel bound on the keys (what multiway_merge_loser_tree_combined uses).
+    [UInv] is the tournament invariant under the order the unguarded code really plays under on ALL leaves,
+    padding included (key order; stable: (key, source) with padding source = invalid_); [all_some]: no player
+    exhausted.  Keys may be greater than the sentinel. *)
+Theorem C09_unguarded_any_keys_init :
+  forall (A : Type) (ltb : A -> A -> bool) (dkey sentinel : A) (v : variant), v_guarded v = false ->
+  forall (heads : list (option A)),
+    1 <= N.of_nat (length heads) <= 2 ^ 30 -> all_some heads ->
+    UInv ltb dkey sentinel v (lt_build ltb dkey v sentinel heads) heads.
+Proof. exact (@ubuild_UInv). Qed.
+Print Assumptions C09_unguarded_any_keys_init.
+
+(** preserved by delete_min_insert with an arbitrary new key, whenever min_source() names a real source *)
+Theorem C09_unguarded_any_keys_replay :
+  forall (A : Type) (ltb : A -> A -> bool) (dkey sentinel : A) (v : variant), v_guarded v = false ->
+  forall (t : tree) (pl : list (option A)) (x : A),
+    UInv ltb dkey sentinel v t pl -> lt_min_source dkey v t <> invalid_ ->
+    UInv ltb dkey sentinel v (lt_delete_min_insert ltb dkey v t (Some x)) (setN pl (lt_min_source dkey v t) (Some x)).
+Proof. exact (@udmi_UInv). Qed.
+Print Assumptions C09_unguarded_any_keys_replay.
+
+(** while some player's key still beats the sentinel (stable: is not greater than it; unstable: is strictly less),
+    min_source() is a real player, a minimum, and - stable - the smallest index among equivalent keys *)
+Theorem C09_unguarded_any_keys_winner :
+  forall (A : Type) (ltb : A -> A -> bool) (dkey sentinel : A), SWO ltb ->
+  forall (v : variant), v_guarded v = false ->
+  forall (t : tree) (pl : list (option A)),
+    UInv ltb dkey sentinel v t pl ->
+    (exists j kj, live pl j kj /\ beats_sentinel ltb sentinel v kj) ->
+    winner_ok ltb (v_stable v) pl (lt_min_source dkey v t) /\ lt_min_source dkey v t <> invalid_.
+Proof. exact (@uwinner_ok). Qed.
+Print Assumptions C09_unguarded_any_keys_winner.
+
+(** the model driven the COMBINED way (consult the tree only while some current key beats the sentinel) reports a
+    sequence the corresponding trace checker accepts, for arbitrary keys *)
+Theorem C09_unguarded_any_keys_run_passes_checker :
+  forall (A : Type) (ltb : A -> A -> bool) (dkey sentinel : A), SWO ltb ->
+  forall (v : variant), v_guarded v = false ->
+  forall (seqs : list (list A)),
+    1 <= N.of_nat (length seqs) <= 2 ^ 30 -> (forall j sq, nthN seqs j = Some sq -> sq <> []) ->
+    check_trace_g ltb v sentinel seqs (lt_run_g ltb dkey v sentinel seqs) = true.
+Proof. exact (@run_g_checks). Qed.
+Print Assumptions C09_unguarded_any_keys_run_passes_checker.
